@@ -328,12 +328,15 @@ def run(ctx):
     wrappers = [lambda R: {'o': {'type': 'dict', 'schema': {'f': R}}}, lambda R: {'o': {'valuesrules': R}}, lambda R: {'o': {'anyof': [R, {'type': 'integer'}]}},
                 lambda R: {'o': {'type': 'list', 'items': [R]}}, lambda R: {'o': {'type': 'list', 'schema': R}}, lambda R: {'o': {'allow_unknown': R}}]
     eps = ["constructor", "setter", "validate-arg", "update", "setitem", "allow_unknown"]
-    for R in raws:
+    for R0 in raws:
         for w in wrappers:
             for e1 in eps:
                 for e2 in (eps if thorough else rng.sample(eps, 3)):
-                    first = ("Validator", e1, {'f': copy.deepcopy(R)}, doc, 'spelling-twin')
-                    second = (rng.choice(["Validator", "Validator", "SubRule"]), e2, w(copy.deepcopy(R)), doc, 'spelling-twin')
+                    # the rule set as a dict or as another kind of Mapping (UserDict is no dict subclass)
+                    kind = rng.choice([dict, dict, collections.UserDict, collections.OrderedDict])
+                    R = kind(copy.deepcopy(R0))
+                    first = ("Validator", e1, {'f': copy.deepcopy(R)}, doc, 'spelling-twin' + ('' if kind is dict else ':' + kind.__name__))
+                    second = (rng.choice(["Validator", "Validator", "SubRule"]), e2, w(copy.deepcopy(R)), doc, first[4])
                     check([first, second])
                     check([second, first])
                     dist["spelling_twin_pairs"] += 2
